@@ -11,7 +11,11 @@ PID = "C19"
 PROPS_MODULE = "NumbersModel.Props.C19"
 THEOREMS = [f"NumbersModel.Props.C19.{t}" for t in (
     "add_no_ci_duplicate", "auto_name_fresh", "dup_refused", "lookup_by_name_exact", "index_agrees_with_iteration",
-    "index_outside_raises")]
+    "index_outside_raises")] + [f"NumbersModel.Props.C19.Src.{t}" for t in (
+    # the lookup clauses over ItemsList.__getitem__ as py2lean regenerates it from containers.py on every run
+    "src_index_agrees_with_iteration", "src_index_outside_raises", "src_lookup_by_name_exact", "src_other_key_raises")] + \
+    [f"NumbersModel.Translated.{t}" for t in ("getitem_int_eq_model", "getitem_str_eq_model", "getitem_other")]
+TRANSLATED_GROUPS = ("Items",)
 PARTIAL = {"order_after_reload": "names and order after save/reopen are not a theorem (they go through protobuf and the object "
                                  "store); exercised by the oracle on every saved history"}
 RULE = ("seeded histories of add_sheet/add_table (named from a pool with case variants, generated-looking names, empty, "
@@ -25,9 +29,12 @@ MANIFEST = {
             "pigeonhole), dup_refused (IndexError, collection unchanged), lookup_by_name_exact, index_agrees_with_iteration + "
             "index_outside_raises (all integer indices) are Lean theorems about a model of ItemsList and the name choice in "
             "add_sheet/_add_table, for every collection and every case-folding function. Names and order after save/reopen are "
-            "checked by the oracle only (partial).",
+            "checked by the oracle only (partial). ItemsList.__getitem__ is additionally TRANSLATED from containers.py on "
+            "every run (harness/py2lean.py -> Gen/TrItems.lean), proved equal to the model's getByIndex/getByName "
+            "(Lemmas/TrItems.lean) and the lookup clauses are restated over the translated definition "
+            "(Props.C19.Src.src_*); the translated definition is run against the real method exhaustively on small collections.",
     "note": "str.lower is supplied by the interpreter as data; item creation in model.py is not modelled.",
-    "technique": "Lean 4 proof (invariant preservation, pigeonhole for termination) + differential correspondence on edit histories",
+    "technique": "Lean 4 proof (invariant preservation, pigeonhole for termination; __getitem__ proved equal to its translation from the Python source) + differential correspondence on edit histories",
 }
 
 POOL = ["Sheet 1", "sheet 1", "SHEET 2", "Sheet 2", "Table 1", "table 1", "TABLE 2", "Table 3", "table 3", "Sheet 10", "sheet 02",
@@ -250,6 +257,60 @@ def run(ctx: Ctx):
         req.append(c.line())
         out.append(c.result())
     ctx.correspond("all indices in [-2n-1, 2n+1] for n = 1..6 sheets", req, out, exhaustive=True, keep=1)
+    getitem_stream(ctx)
+
+
+def getitem_stream(ctx: Ctx):
+    """ItemsList.__getitem__ on bare collections (every list of <= 3 names over a 3-name pool x every int key in
+    [-2n-2, 2n+2], every pool name, bools, None, a float) vs the definition translated from the source."""
+    import itertools
+    import types
+    from numbers_parser.containers import ItemsList
+    pool = ["a", "b", "A"]
+    req, out = [], []
+    for n in range(0, 4):
+        for names in itertools.product(pool, repeat=n):
+            il = ItemsList.__new__(ItemsList)
+            il._item_name = "item"
+            il._items = [types.SimpleNamespace(name=nm, idx=i) for i, nm in enumerate(names)]
+            keys = [("i", k) for k in range(-2 * n - 2, 2 * n + 3)] + [("s", k) for k in pool + ["", "ab"]] + \
+                   [("b", True), ("b", False), ("o", None), ("o", 1.5)]
+            for kind, k in keys:
+                word = f"s {enc_text(k)}" if kind == "s" else "o" if kind == "o" else f"i {int(k)}"
+                req.append(f"items getitem {n} " + "".join(enc_text(x) + " " for x in names) + word)
+                try:
+                    got = il[k]
+                    out.append(f"ok {got.idx}")
+                    if kind == "s" and got.name != k:
+                        ctx.violation("name-lookup-wrong-item", f"{list(names)}[{k!r}] returned item named {got.name!r}",
+                                      {"names": list(names), "key": k})
+                    if kind in "ib" and got is not list(il._items)[int(k) % n]:
+                        ctx.violation("index-lookup-wrong-item", f"{list(names)}[{k!r}] returned item {got.idx}",
+                                      {"names": list(names), "key": int(k)})
+                except Exception as e:  # noqa: BLE001
+                    out.append("err " + exc_name(e))
+                    if kind in "ib" and -n <= int(k) < n:
+                        ctx.violation("index-in-range-raises", f"{list(names)}[{k!r}] raised {exc_name(e)}",
+                                      {"names": list(names), "key": int(k)})
+                    if not isinstance(e, LookupError):
+                        ctx.violation("lookup-raises-foreign-exception", f"{list(names)}[{k!r}] raised {exc_name(e)}",
+                                      {"names": list(names), "key": repr(k)})
+    # the model driver has no such op: this stream is only for the translated-source definitions
+    sub = ctx.subspaces.setdefault("ItemsList.__getitem__ on bare collections vs the definition translated from the source",
+                                   {"cases": 0, "exhaustive": True, "disagreements": 0})
+    sub["cases"] += len(req)
+    ctx.evaluations += len(req)
+    if ctx.translated_available:
+        tr = common.run_model(req, driver=common.TRDRIVER)
+        sub["translated_source_cases"] = len(req)
+        for r, a, b in zip(req, out, tr):
+            if a != b:
+                sub["disagreements"] += 1
+                if len(ctx.disagreements) < 50:
+                    ctx.disagreements.append({"subspace": "ItemsList.__getitem__ [definitions translated from the source]",
+                                              "request": r, "impl": a, "model": b})
+    else:
+        sub["skipped_model"] = True
 
 
 def replay(data):
